@@ -420,7 +420,7 @@ func genC14(t *rapid.T) *Bundle {
 		return genC14Differential(t)
 	}
 	nrows := rapid.IntRange(0, 6).Draw(t, "nrows")
-	place := rapid.SampledFrom([]string{"top", "derived_star", "cte", "subquery", "derived_cols", "subquery_in_derived", "subquery_in_cte", "union_branch", "exists", "cte_chain"}).Draw(t, "place")
+	place := rapid.SampledFrom([]string{"top", "derived_star", "cte", "subquery", "derived_cols", "subquery_in_derived", "subquery_in_cte", "union_branch", "exists", "cte_chain", "grid"}).Draw(t, "place")
 	// the calls sit in a row-scoped subquery (possibly itself nested in a derived table / CTE)
 	inSub := strings.HasPrefix(place, "subquery") || place == "exists"
 	rows := make([]any, 0, nrows)
@@ -536,6 +536,18 @@ func genC14(t *rapid.T) *Bundle {
 	switch place {
 	case "top":
 		query = fmt.Sprintf("SELECT %s FROM t%s", selSQL, where)
+	case "grid":
+		// FROM rows that are arrays themselves: the rows of t, two to an inner array
+		query = fmt.Sprintf("SELECT %s FROM g%s", selSQL, where)
+		g := []any{}
+		for i := 0; i < len(rows); i += 2 {
+			end := i + 2
+			if end > len(rows) {
+				end = len(rows)
+			}
+			g = append(g, append([]any{}, rows[i:end]...))
+		}
+		doc["g"] = g
 	case "derived_star":
 		query = fmt.Sprintf("SELECT * FROM (SELECT %s FROM t%s) d", selSQL, where)
 	case "derived_cols":
@@ -635,6 +647,22 @@ func genC14(t *rapid.T) *Bundle {
 				exp.Rows = append(exp.Rows, out)
 			}
 		}
+	}
+	if place == "grid" && !hasImmq {
+		// the result has the nesting of the source; a row WHERE rejects leaves its inner array shorter
+		nested := []any{}
+		k := 0
+		for i := 0; i < len(rows); i += 2 {
+			inner := []any{}
+			for j := i; j < i+2 && j < len(rows); j++ {
+				if whereK < 0 || rows[j].(map[string]any)["a"].(float64) >= float64(whereK) {
+					inner = append(inner, exp.Rows[k])
+					k++
+				}
+			}
+			nested = append(nested, inner)
+		}
+		exp.Rows = nested
 	}
 	// GLOBAL columns hold the `a` column of every row of t
 	allA := []any{}
